@@ -99,6 +99,9 @@ struct TaskWaker {
 impl ArcWake for TaskWaker {
     fn wake_by_ref(a: &Arc<Self>) {
         if !a.queued.swap(true, Ordering::SeqCst) {
+            if live_trace() {
+                eprintln!("    wake task {}", a.id);
+            }
             a.q.lock().unwrap().push_back(Choice::Task(a.id));
         }
     }
@@ -145,7 +148,7 @@ pub struct Rt {
     timers: RefCell<BTreeMap<(Duration, u64), Waker>>,
     timer_seq: Cell<u64>,
     now: Cell<Duration>,
-    idle: RefCell<VecDeque<Waker>>,
+    idle: RefCell<VecDeque<(Waker, Arc<AtomicBool>)>>,
     pub net: RefCell<net::Net>,
     pub steps: Cell<u64>,
     pub trace_hash: Cell<u64>,
@@ -302,8 +305,9 @@ impl Sim {
             if n == 0 {
                 // idle barrier first, then timers
                 let w = rt.idle.borrow_mut().pop_front();
-                if let Some(w) = w {
+                if let Some((w, fired)) = w {
                     rt.idle_rounds.set(rt.idle_rounds.get() + 1);
+                    fired.store(true, Ordering::SeqCst);
                     w.wake();
                     continue;
                 }
@@ -633,21 +637,32 @@ pub mod task {
     /// Completes when the simulation would otherwise be quiescent (nothing runnable, no in-flight
     /// delivery). Waiters are released one at a time in arrival order.
     pub struct Idle {
-        armed: bool,
+        fired: Option<Arc<AtomicBool>>,
     }
     impl Future for Idle {
         type Output = ();
         fn poll(mut self: Pin<&mut Self>, cx: &mut Context<'_>) -> Poll<()> {
-            if self.armed {
-                return Poll::Ready(());
+            match &self.fired {
+                Some(f) => {
+                    if f.load(Ordering::SeqCst) {
+                        Poll::Ready(())
+                    } else {
+                        // woken for another reason: stay registered (the queued waker still
+                        // belongs to this task)
+                        Poll::Pending
+                    }
+                }
+                None => {
+                    let f = Arc::new(AtomicBool::new(false));
+                    self.fired = Some(f.clone());
+                    rt().idle.borrow_mut().push_back((cx.waker().clone(), f));
+                    Poll::Pending
+                }
             }
-            self.armed = true;
-            rt().idle.borrow_mut().push_back(cx.waker().clone());
-            Poll::Pending
         }
     }
     pub fn idle() -> Idle {
-        Idle { armed: false }
+        Idle { fired: None }
     }
 
     /// Co-operative yield: Pending once, self-woken.
@@ -713,6 +728,31 @@ pub mod future {
             }
         }
     }
+    /// Run `f` until it completes or until the simulation would otherwise be quiescent (nothing
+    /// runnable, nothing in flight): then `f` is polled one last time and dropped. This is how a
+    /// scenario says "receive whatever arrives, and go on once nothing more can arrive".
+    pub struct OrIdle<F> {
+        f: Pin<Box<F>>,
+        idle: Option<task::Idle>,
+    }
+    impl<F: Future> Future for OrIdle<F> {
+        type Output = Option<F::Output>;
+        fn poll(mut self: Pin<&mut Self>, cx: &mut Context<'_>) -> Poll<Self::Output> {
+            if let Poll::Ready(v) = self.f.as_mut().poll(cx) {
+                return Poll::Ready(Some(v));
+            }
+            let this = &mut *self;
+            let idle = this.idle.get_or_insert_with(task::idle);
+            match Pin::new(idle).poll(cx) {
+                Poll::Ready(()) => Poll::Ready(None),
+                Poll::Pending => Poll::Pending,
+            }
+        }
+    }
+    pub fn or_idle<F: Future>(f: F) -> OrIdle<F> {
+        OrIdle { f: Box::pin(f), idle: None }
+    }
+
     pub fn poll_budget<F: Future>(f: F, budget: u32) -> PollBudget<F> {
         PollBudget { f: Box::pin(f), left: budget, polls: 0 }
     }
